@@ -121,7 +121,7 @@ def rank_post(klass):
     return post
 
 
-def streams_for(ctx, cls, supported, salt, extra_sizes=()):
+def streams_for(ctx, cls, supported, salt, extra_sizes=(), with_rank=True):
     import panqec.codes as C
     klass = getattr(C, cls)
     rng = ctx.np_rng(salt + 1)
@@ -149,7 +149,7 @@ def streams_for(ctx, cls, supported, salt, extra_sizes=()):
                   {'code': label, 'what': 'get_logicals_x'}, tag=tag)
         s_log.add(f'{pre} logz', guarded(lambda: ops_str(code.get_logicals_z())),
                   {'code': label, 'what': 'get_logicals_z'}, tag=tag)
-        if supported(size):
+        if with_rank and supported(size):
             nk = guarded(lambda: code.n - code.k)
             s_rank.add(f'{pre} rankfamily', f'members {nk} rank {nk}',
                        {'code': label, 'what': 'independent family of n-k generators (theorem rank_family) '
@@ -189,4 +189,4 @@ def streams_for(ctx, cls, supported, salt, extra_sizes=()):
                     s_def.add(f'{pre} deform {name} {ax} {cstr(loc)}', guarded(call, ERR),
                               {'code': label, 'location': list(loc), 'name': name, 'axis': ax,
                                'what': 'get_deformation'}, tag=tag)
-    return [s.run() for s in (s_coord, s_stab, s_log, s_attr, s_def, s_rank)]
+    return [s.run() for s in (s_coord, s_stab, s_log, s_attr, s_def) + ((s_rank,) if with_rank else ())]
